@@ -8,6 +8,7 @@ import (
 	"bytes"
 	"context"
 	"crypto/ecdsa"
+	"crypto/elliptic"
 	"encoding/base64"
 	"errors"
 	"net/http"
@@ -121,7 +122,7 @@ func Harness_C08_proofByHash() {
 func Harness_C08_getSTH() {
 	be, rl := &envBackend{}, &envReqLog{}
 	li := envLogInfo(be, rl)
-	sg := &envSigner{pub: &ecdsa.PublicKey{}, sig: vBytes("sig", 1+vChoice("sig-len", 2))}
+	sg := &envSigner{pub: &ecdsa.PublicKey{Curve: elliptic.P256()}, sig: vBytes("sig", 1+vChoice("sig-len", 2))}
 	signFails := vChoice("sign-fails", 2) == 1
 	sg.fail = signFails
 	li.signer = sg
@@ -187,7 +188,7 @@ func Harness_C08_getSTH() {
 func Harness_C08_getSTHHistory() {
 	be, rl := &envBackend{}, &envReqLog{}
 	li := envLogInfo(be, rl)
-	li.signer = &envSigner{pub: &ecdsa.PublicKey{}, sig: []byte{1, 2}}
+	li.signer = &envSigner{pub: &ecdsa.PublicKey{Curve: elliptic.P256()}, sig: []byte{1, 2}}
 	if vChoice("mirror", 2) == 1 {
 		li.sthGetter = &MirrorSTHGetter{li: li, st: DefaultMirrorSTHStorage{}}
 	}
